@@ -1,12 +1,179 @@
 /-
-Driver operations for the Sync model (line protocol). Core Lean only.
+Driver operations for the sync models (C06, C07). Core Lean only.
 `handle st words` returns `none` when the first word is not one of this module's operations.
+
+  sync|xsync init <cpoff 0|1> <now> <h:hash,…|-> <forbidden,…|->     configuration
+  sync|xsync def <hex80>                                              appends a header to the table (index = order)
+  sync|xsync preload <idx…>                                           headers added to the store before the engine exists
+  sync new                                                            p2psync.New on the current store
+  sync newpeer <choice> <p> <lastBlock> <candidate 0|1>               events; <choice> = observed sync peer afterwards
+  sync headers <choice> <p> <idx…> | sync inv <choice> <p> <idx…> | sync done <choice> <p> | sync tick <choice> <stale 0|1>
+  xsync new | xsync start <peerHeight> | xsync headers <c> <p> <idx…> | xsync inv <c> <p> <idx…>
+  sync|xsync dump | sync state
+  node reply <cap> <pos> <stop|0> <loc,…> : <path idx…>                  the conformant node's answer (tree indices)
+Answer to an event: the actions, `gh <p> <stop|0> <loc,…> ; disc <p> ; ban <p> ; sendheaders <p> ; panic`.
 -/
+import BHS.Model.Header
+import BHS.Model.Sync
+import BHS.Model.SyncExp
+import BHS.Model.Node
+
 namespace Driver.Ops.Sync
+open BHS BHS.Chain BHS.Header
 
 structure S where
-  unit : Unit := ()
+  cpoff : Bool := false
+  now : Nat := 0
+  cps : List (Nat × String) := []
+  forbid : List String := []
+  table : Array (Src String) := #[]
+  store : Store String := [genesisRow]
+  st : Option (BHS.Sync.State String) := none
+  xst : Option (BHS.SyncExp.State String) := none
+  xnode : Nat := 0
 
-def handle (_st : S) (_ws : List String) : Option (S × String) := none
+def ccfg (s : S) : Chain.Cfg String := { hashOf := blockHash, forbidden := s.forbid }
+
+def cfgOf (s : S) : BHS.Sync.Cfg String :=
+  { chain := ccfg s, zero := zeroHash, checkpoints := s.cps, disableCp := s.cpoff, now := s.now }
+
+def xcfgOf (s : S) : BHS.SyncExp.Cfg String := { chain := ccfg s, zero := zeroHash, checkpoints := s.cps }
+
+def stName : St → String
+  | .lc => "LONGEST_CHAIN"
+  | .stale => "STALE"
+  | .orphan => "ORPHAN"
+
+def rowStr (r : Row String) : String :=
+  s!"{r.id},{r.hash},{r.prev},{r.merkle},{r.height},{r.version},{r.time},{r.bits},{r.nonce},{r.work},{r.cum},{stName r.st}"
+
+def hashName (h : String) : String := if h = zeroHash then "0" else h
+
+def actStr : BHS.Sync.Action String → String
+  | .getheaders p loc stop => s!"gh {p} {hashName stop} {",".intercalate (loc.map hashName)}"
+  | .disconnect p => s!"disc {p}"
+  | .ban p => s!"ban {p}"
+  | .panic => "panic"
+
+def xactStr (p : Nat) : BHS.SyncExp.Action String → String
+  | .getheaders loc stop => s!"gh {p} {hashName stop} {",".intercalate (loc.map hashName)}"
+  | .sendheaders => s!"sendheaders {p}"
+  | .disconnect => s!"disc {p}"
+  | .panic => "panic"
+
+def parseCps (w : String) : Option (List (Nat × String)) :=
+  if w = "-" then some [] else
+  (w.splitOn ",").mapM fun item =>
+    match item.splitOn ":" with
+    | [h, hash] => (fun k => (k, hash)) <$> h.toNat?
+    | _ => none
+
+def parseList (w : String) : List String := if w = "-" then [] else w.splitOn ","
+
+def lookupAll (s : S) (ws : List String) : Option (List (Src String)) :=
+  ws.mapM fun w => w.toNat?.bind fun i => s.table[i]?
+
+def choiceStr (sp : Option Nat) : String :=
+  match sp with
+  | some p => toString p
+  | none => "-"
+
+/-- run one event of the default engine; the random pick is whichever index reproduces the observed choice -/
+def runEvent (s : S) (st : BHS.Sync.State String) (choice : String) (ev : BHS.Sync.Event String) : S × String :=
+  let cfg := cfgOf s
+  let n := st.peers.length + 1
+  let tries := (List.range n).map fun pick => BHS.Sync.step cfg st pick ev
+  let hit := tries.find? fun r => choice = "?" || choiceStr r.1.syncPeer = choice
+  let r := match hit with
+    | some r => r
+    | none => BHS.Sync.step cfg st 0 ev
+  let out := " ; ".intercalate (r.2.map actStr)
+  let out := if hit.isSome then out
+    else (if out.isEmpty then "" else out ++ " ; ") ++ s!"bad-syncpeer model={choiceStr r.1.syncPeer} observed={choice}"
+  ({ s with st := some r.1 }, out)
+
+def stateStr (st : BHS.Sync.State String) : String :=
+  let cp := match st.nextCp with | some c => toString c.1 | none => "-"
+  let peers := st.peers.map fun q => s!"{q.id}:{if q.inMap then "m" else "-"}{if q.candidate then "c" else "-"}{if q.disc then "d" else "-"}:{q.lastBlock}"
+  s!"sync={choiceStr st.syncPeer} hf={st.headersFirst} cp={cp} peers={",".intercalate peers}"
+
+def handle (s : S) : List String → Option (S × String)
+  | [pre, "init", cpoff, now, cps, forbid] =>
+    if pre ≠ "sync" && pre ≠ "xsync" then none else
+    match now.toNat?, parseCps cps with
+    | some now, some cps =>
+      some ({ cpoff := cpoff = "1", now := now, cps := cps, forbid := parseList forbid }, "ok")
+    | _, _ => some (s, "bad-args")
+  | [pre, "def", hex] =>
+    if pre ≠ "sync" && pre ≠ "xsync" then none else
+    match (BHS.Sha256.ofHex hex).bind parse with
+    | some x => some ({ s with table := s.table.push x }, "ok")
+    | none => some (s, "bad-header")
+  | pre :: "preload" :: idxs =>
+    if pre ≠ "sync" && pre ≠ "xsync" then none else
+    match lookupAll s idxs with
+    | some xs => some ({ s with store := run (ccfg s) s.store xs }, "ok")
+    | none => some (s, "bad-args")
+  | ["sync", "new"] => some ({ s with st := some (BHS.Sync.new (cfgOf s) s.store) }, "ok")
+  | ["xsync", "new"] => some (s, "ok")
+  | ["sync", "newpeer", choice, p, lb, cand] =>
+    match s.st, p.toNat?, lb.toInt? with
+    | some st, some p, some lb => some (runEvent s st choice (.newPeer p (cand = "1") lb))
+    | _, _, _ => some (s, "bad-args")
+  | "sync" :: "headers" :: choice :: p :: idxs =>
+    match s.st, p.toNat?, lookupAll s idxs with
+    | some st, some p, some xs => some (runEvent s st choice (.headers p xs))
+    | _, _, _ => some (s, "bad-args")
+  | "sync" :: "inv" :: choice :: p :: idxs =>
+    match s.st, p.toNat?, lookupAll s idxs with
+    | some st, some p, some xs => some (runEvent s st choice (.inv p (xs.map fun x => (true, blockHash x))))
+    | _, _, _ => some (s, "bad-args")
+  | ["sync", "done", choice, p] =>
+    match s.st, p.toNat? with
+    | some st, some p => some (runEvent s st choice (.donePeer p))
+    | _, _ => some (s, "bad-args")
+  | ["sync", "tick", choice, stale] =>
+    match s.st with
+    | some st => some (runEvent s st choice (.tick (stale = "1")))
+    | none => some (s, "bad-args")
+  | ["sync", "dump"] =>
+    match s.st with
+    | some st => some (s, ";".intercalate (st.store.map rowStr))
+    | none => some (s, ";".intercalate (s.store.map rowStr))
+  | ["sync", "state"] =>
+    match s.st with
+    | some st => some (s, stateStr st)
+    | none => some (s, "none")
+  | ["xsync", "start", peerHeight] =>
+    match peerHeight.toInt? with
+    | some ph =>
+      let r := BHS.SyncExp.start (xcfgOf s) s.store ph 70013
+      some ({ s with xst := some r.1 }, " ; ".intercalate (r.2.map (xactStr 0)))
+    | none => some (s, "bad-args")
+  | "xsync" :: "headers" :: _ :: p :: idxs =>
+    match s.xst, p.toNat?, lookupAll s idxs with
+    | some st, some p, some xs =>
+      let r := BHS.SyncExp.handleHeaders (xcfgOf s) st xs
+      some ({ s with xst := some r.1 }, " ; ".intercalate (r.2.map (xactStr p)))
+    | _, _, _ => some (s, "bad-args")
+  | "xsync" :: "inv" :: _ :: p :: idxs =>
+    match s.xst, p.toNat?, lookupAll s idxs with
+    | some st, some p, some xs =>
+      let r := BHS.SyncExp.handleInv (xcfgOf s) st (xs.map fun x => (true, blockHash x))
+      some ({ s with xst := some r.1 }, " ; ".intercalate (r.2.map (xactStr p)))
+    | _, _, _ => some (s, "bad-args")
+  | ["xsync", "dump"] =>
+    match s.xst with
+    | some st => some (s, ";".intercalate (st.store.map rowStr))
+    | none => some (s, ";".intercalate (s.store.map rowStr))
+  | "node" :: "reply" :: cap :: pos :: stop :: loc :: ":" :: path =>
+    match cap.toNat?, pos.toNat?, lookupAll s path with
+    | some cap, some pos, some chain =>
+      let n : BHS.Sync.Node String := { genesis := genesisRow.hash, chain := chain.take pos, cap := cap }
+      let stop := if stop = "0" then zeroHash else stop
+      let out := BHS.Sync.reply blockHash n (parseList loc) stop
+      some (s, ",".intercalate (out.map blockHash))
+    | _, _, _ => some (s, "bad-args")
+  | _ => none
 
 end Driver.Ops.Sync
